@@ -302,7 +302,7 @@ func runCondRewrite(c *hx.Ctx, g *gen, text string, modelled bool) {
 	if uerr == nil && shipped != nil {
 		have = dump(shipped)
 	}
-	c.Violation(line, cls, fmt.Sprintf("text=%s planned(after ConditionExpr)=%s shipped=%s reparsed=%s (%v) %s", strconv.Quote(text), d2, strconv.Quote(printed), have, uerr, witness))
+	c.Violation(line, cls, fmt.Sprintf("text=%s planned(after ConditionExpr)=%s shipped=%s reparsed=%s (%s) %s", strconv.Quote(text), d2, strconv.Quote(printed), have, errStr(uerr), oneLine(witness)))
 }
 
 // ---------------------------------------------------------------------------------------------
@@ -390,7 +390,7 @@ func runPrep(c *hx.Ctx, g *gen) {
 	case planned == nil:
 		c.Count("rewrite:prep-no-condition")
 		if uerr != nil || shipped != nil {
-			c.Violation(line, "", fmt.Sprintf("text=%s no condition planned, store got %v (%v)", strconv.Quote(text), shipped, uerr))
+			c.Violation(line, "", fmt.Sprintf("text=%s no condition planned, store got %v (%s)", strconv.Quote(text), shipped, errStr(uerr)))
 		}
 		return
 	}
@@ -411,5 +411,17 @@ func runPrep(c *hx.Ctx, g *gen) {
 		cls = "time_literal_shipped_as_string"
 	}
 	c.Count("rewrite:prep-shipped-differs")
-	c.Violation(line, cls, fmt.Sprintf("text=%s planned(after preparation)=%s shipped=%s reparsed=%s (%v) %s", strconv.Quote(text), d, strconv.Quote(planned.String()), have, uerr, witness))
+	c.Violation(line, cls, fmt.Sprintf("text=%s planned(after preparation)=%s shipped=%s reparsed=%s (%s) %s", strconv.Quote(text), d, strconv.Quote(planned.String()), have, errStr(uerr), oneLine(witness)))
+}
+
+// errStr / oneLine: a violation description is one line of viol.out (an error text can quote a line break)
+func errStr(err error) string {
+	if err == nil {
+		return "<nil>"
+	}
+	return strconv.Quote(err.Error())
+}
+
+func oneLine(s string) string {
+	return strings.NewReplacer("\n", "\\n", "\t", "\\t", "\r", "\\r").Replace(s)
 }
